@@ -77,6 +77,7 @@ type c13Call struct {
 	Caller   int          `json:"caller"` // calls of one caller run consecutively, callers concurrently
 	Wait     int64        `json:"wait"`   // ns slept before the call (after the caller's previous return / history start)
 	ExpAlign *int64       `json:"expAlign,omitempty"`
+	Timeout  int64        `json:"timeout,omitempty"` // caller's context: 0 context.Background(); >0 deadline that many ns after the call starts; <0 already cancelled
 	Payloads []c13Payload `json:"payloads"`
 }
 
@@ -87,6 +88,7 @@ type c13Input struct {
 	Expire  int64     `json:"expire"` // RunnerConfig.CacheExpire in ns; 0 = never
 	Clean   int64     `json:"clean"`  // RunnerConfig.CacheClean in ns
 	Workers int       `json:"workers"`
+	Instant bool      `json:"instant,omitempty"` // the pipeline answers without any (virtual) delay: batches of a call complete concurrently
 	Calls   []c13Call `json:"calls"`
 }
 
@@ -97,11 +99,16 @@ type c13Ev struct {
 	Batch []c13Payload `json:"batch,omitempty"`
 	OK    bool         `json:"ok"`
 	Res   []JCR        `json:"res,omitempty"`
+
+	rawBatch []ocr2keepers.UpkeepPayload // converted to Batch / Res after the run (keeps the pipeline fast)
+	rawRes   []ocr2keepers.CheckResult
 }
 type c13Ret struct {
 	C    int   `json:"c"`
 	Vals []JCR `json:"vals"`
 	Err  int   `json:"err"` // 0 nil, 1 ErrTooManyErrors, 2 anything else
+	// the caller's context was done (cancelled, or its deadline reached) when the call returned
+	Cancelled bool `json:"cancelled"`
 }
 type c13Impl struct {
 	Events  []c13Ev  `json:"events"`
@@ -128,6 +135,28 @@ type c13Scn struct {
 	execs   uint64        // pipeline executions so far: makes every produced result unique
 	lastOK  map[int]int64 // caller -> aggregation instant of its latest successful batch
 	callers map[int]int   // call id -> caller
+	instant bool
+}
+
+// log records ev at the current instant without moving in time (instant pipeline).
+func (s *c13Scn) log(ev c13Ev) {
+	s.mu.Lock()
+	ev.Now = time.Since(s.t0).Nanoseconds()
+	s.events = append(s.events, ev)
+	s.mu.Unlock()
+}
+
+// c13CtxDone: the context is cancelled or its deadline has been reached.  Decided on the clock as
+// well, so that the answer does not depend on whether the context's own timer has already run at
+// this very instant.
+func c13CtxDone(ctx context.Context) bool {
+	if ctx.Err() != nil {
+		return true
+	}
+	if dl, ok := ctx.Deadline(); ok && !time.Now().Before(dl) {
+		return true
+	}
+	return false
 }
 
 // claim moves the calling goroutine to a virtual instant that no other cache access
@@ -164,7 +193,21 @@ func (s *c13Scn) CheckUpkeeps(ctx context.Context, ps ...ocr2keepers.UpkeepPaylo
 		fail = fail || a.Poison
 		cid = int(a.CID)
 	}
-	time.Sleep(time.Duration(lat))
+	// a pipeline that honours its context: it gives up with ctx.Err() when the context is done
+	// before the answer is ready
+	ctxFail := false
+	if c13CtxDone(ctx) {
+		ctxFail = true
+	} else if !s.instant {
+		tm := time.NewTimer(time.Duration(lat))
+		select {
+		case <-tm.C:
+		case <-ctx.Done():
+			tm.Stop()
+		}
+		ctxFail = c13CtxDone(ctx)
+	}
+	fail = fail || ctxFail
 	s.mu.Lock()
 	s.execs++
 	exec := s.execs
@@ -193,17 +236,19 @@ func (s *c13Scn) CheckUpkeeps(ctx context.Context, ps ...ocr2keepers.UpkeepPaylo
 			out = append(out, r)
 		}
 	}
-	ev := c13Ev{T: "d", C: cid, OK: !fail}
-	for _, p := range ps {
-		jp := toC13Payload(p)
-		jp.CD = ""
-		ev.Batch = append(ev.Batch, jp)
-	}
+	ev := c13Ev{T: "d", C: cid, OK: !fail, rawBatch: append([]ocr2keepers.UpkeepPayload(nil), ps...)}
 	if !fail {
-		ev.Res = toJCRs(out)
+		ev.rawRes = append([]ocr2keepers.CheckResult(nil), out...)
 	}
-	s.claim(ev)
+	if s.instant {
+		s.log(ev)
+	} else {
+		s.claim(ev)
+	}
 	if fail {
+		if ctxFail && ctx.Err() != nil {
+			return nil, ctx.Err()
+		}
 		return nil, errC13Pipeline
 	}
 	return out, nil
@@ -211,7 +256,7 @@ func (s *c13Scn) CheckUpkeeps(ctx context.Context, ps ...ocr2keepers.UpkeepPaylo
 
 // c13Run executes one history on a fresh real runner inside the current bubble.
 func c13Run(t *testing.T, in c13Input) c13Impl {
-	s := &c13Scn{t0: time.Now(), clean: in.Clean, claimed: map[int64]bool{}, lastOK: map[int]int64{}, callers: map[int]int{}}
+	s := &c13Scn{t0: time.Now(), clean: in.Clean, claimed: map[int64]bool{}, lastOK: map[int]int64{}, callers: map[int]int{}, instant: in.Instant}
 	r, err := runner.NewRunner(quietLogger, s, runner.RunnerConfig{
 		Workers: in.Workers, WorkerQueueLength: 100,
 		CacheExpire: time.Duration(in.Expire), CacheClean: time.Duration(in.Clean),
@@ -257,8 +302,17 @@ func c13Run(t *testing.T, in c13Input) c13Impl {
 					ps[i] = fromC13Payload(p)
 				}
 				s.claim(c13Ev{T: "s", C: c.C})
-				vals, err := r.CheckUpkeeps(context.Background(), ps...)
-				ret := c13Ret{C: c.C, Vals: toJCRs(vals)}
+				ctx, cancel := context.Background(), context.CancelFunc(func() {})
+				switch {
+				case c.Timeout > 0:
+					ctx, cancel = context.WithTimeout(ctx, time.Duration(c.Timeout))
+				case c.Timeout < 0:
+					ctx, cancel = context.WithCancel(ctx)
+					cancel()
+				}
+				vals, err := r.CheckUpkeeps(ctx, ps...)
+				ret := c13Ret{C: c.C, Vals: toJCRs(vals), Cancelled: c13CtxDone(ctx)}
+				cancel()
 				switch {
 				case err == nil:
 				case errors.Is(err, runner.ErrTooManyErrors):
@@ -295,6 +349,17 @@ func c13Run(t *testing.T, in c13Input) c13Impl {
 	s.mu.Lock()
 	defer s.mu.Unlock()
 	sort.SliceStable(s.rets, func(i, j int) bool { return s.rets[i].C < s.rets[j].C })
+	for i := range s.events {
+		ev := &s.events[i]
+		for _, p := range ev.rawBatch {
+			jp := toC13Payload(p)
+			jp.CD = ""
+			ev.Batch = append(ev.Batch, jp)
+		}
+		if ev.OK {
+			ev.Res = toJCRs(ev.rawRes)
+		}
+	}
 	return c13Impl{Events: s.events, Rets: s.rets, Problem: problem}
 }
 
@@ -408,6 +473,18 @@ func c13Gen(r *Rng, big bool, em *Emitter) c13Input {
 				d := int64(r.Range(-1, 1))
 				call.ExpAlign = &d
 			}
+			// caller's context: mostly alive for ever; otherwise a deadline placed among the pipeline
+			// latencies (some batches answered before it, the others give up at it), or already done
+			switch x := r.Intn(100); {
+			case x < 22:
+				call.Timeout = int64(c13Lats[r.Range(1, len(c13Lats)-1)]) + int64(r.Range(-2, 1500))
+				em.Hit("ctx=deadline")
+			case x < 25:
+				call.Timeout = -1
+				em.Hit("ctx=cancelled-before-call")
+			default:
+				em.Hit("ctx=alive")
+			}
 			n := n0
 			if j > 0 || k > 0 {
 				if r.Chance(50) {
@@ -501,6 +578,60 @@ func c13Bucket(n int) int {
 	return 1000
 }
 
+// c13GenInstant: one caller, big calls, a pipeline that answers at once, many workers: the batches
+// of a call complete concurrently (real concurrency inside the bubble, no virtual time passes), so
+// several results are handed to the aggregating goroutine at a time while others are still being
+// produced.  Work ids are unique within a call, which makes the cache a call leaves behind
+// independent of the order in which its batches are aggregated (the model is given the order in
+// which the pipeline answered; the aggregation order may differ).
+func c13GenInstant(r *Rng, em *Emitter) c13Input {
+	in := c13Input{Instant: true, Clean: int64(30 * time.Second), Workers: []int{2, 4, 8, 16, 16, 32}[r.Intn(6)]}
+	switch r.Intn(3) {
+	case 0:
+		in.Expire = 0
+	case 1:
+		in.Expire = int64(20 * time.Minute)
+	default:
+		in.Expire = int64(r.Range(1, 500)) * int64(time.Millisecond)
+	}
+	var n0 int
+	switch x := r.Intn(20); {
+	case x < 4:
+		n0 = r.Range(21, 60)
+	case x < 16:
+		n0 = r.Range(100, 450)
+	case x < 19:
+		n0 = r.Range(451, 999)
+	default:
+		n0 = 1000
+	}
+	w := c13NewWorld(r, n0+r.Range(0, n0/2+1))
+	ncalls := r.Range(1, 3)
+	pPoison := []int{0, 0, 0, 5, 30}[r.Intn(5)]
+	for j := 0; j < ncalls; j++ {
+		call := c13Call{C: j, Caller: 0, Wait: int64(c13Lats[r.Intn(len(c13Lats))]) + int64(r.Intn(1000))}
+		n := n0
+		if j > 0 && r.Chance(50) {
+			n = r.Range(21, n0)
+		}
+		for _, ui := range r.Perm(len(w.uids))[:n] {
+			p := w.payload(ui, r.Intn(len(w.blocks)))
+			a := c13Attr{CID: uint16(j), Lat: 1, Misc: uint8(r.Intn(4))}
+			a.Poison = r.Intn(1000) < pPoison
+			if r.Chance(10) {
+				a.PES = uint8(r.Range(1, 9))
+			}
+			p.CheckData = a.encode()
+			call.Payloads = append(call.Payloads, toC13Payload(p))
+		}
+		in.Calls = append(in.Calls, call)
+	}
+	em.Hit("instant-pipeline")
+	em.Hit(fmt.Sprintf("instant-n0=%d", c13Bucket(n0)))
+	em.Hit(fmt.Sprintf("instant-workers=%d", in.Workers))
+	return in
+}
+
 // ---------------------------------------------------------------- hand-written edge cases
 
 func c13Edge() []c13Input {
@@ -579,6 +710,32 @@ func c13Edge() []c13Input {
 		call(1, 50_000_000, nil, many(0, 30, 0, ok)...)))
 	// 1000 payloads, one worker; then again (all cached), then on the fork
 	out = append(out, hist(min20, 1, call(0, 1000, nil, many(0, 1000, 0, c13Attr{Lat: 1})...), call(0, 1000, nil, many(0, 1000, 0, ok)...), call(0, 1000, nil, many(0, 1000, 1, c13Attr{Lat: 1})...)))
+	// caller's context: deadline between the first batch and the other two -> they give up; 10 results, no error
+	slow, fast := c13Attr{Lat: 100_000_000}, c13Attr{Lat: 1_000_000}
+	ctxCall := func(timeout int64, ps ...pp) c13Call {
+		c := call(0, 1000, nil, ps...)
+		c.Timeout = timeout
+		return c
+	}
+	out = append(out, hist(min20, 4, ctxCall(50_000_000, append(many(0, 10, 0, fast), many(10, 15, 0, slow)...)...)))
+	// ... with one worker: the later batches are still queued at the deadline and fail as soon as they are started
+	out = append(out, hist(min20, 1, ctxCall(50_000_000, append(many(0, 10, 0, fast), many(10, 15, 0, slow)...)...)))
+	// deadline before any answer: every batch fails -> error; then the same payloads with a live context
+	out = append(out, hist(min20, 4, ctxCall(500_000, many(0, 25, 0, fast)...), call(0, 1000, nil, many(0, 25, 0, fast)...)))
+	// deadline after the last answer: nothing special
+	out = append(out, hist(min20, 4, ctxCall(int64(time.Second), many(0, 25, 0, fast)...)))
+	// deadline exactly at / 1 ns around the instant the only batch answers (1000 ns start + 1 ms latency)
+	for _, d := range []int64{999_999, 1_000_000, 1_000_001} {
+		out = append(out, hist(min20, 2, ctxCall(d, many(0, 5, 0, fast)...)))
+	}
+	// context already cancelled: nothing is submitted; cached results are still returned, no error
+	out = append(out, hist(min20, 2, call(0, 1000, nil, many(0, 5, 0, ok)...), ctxCall(-1, many(0, 30, 0, ok)...), ctxCall(-1, many(40, 12, 0, ok)...)))
+	// instant pipeline, 16 workers, 400 and 1000 distinct payloads: batches complete concurrently
+	for _, n := range []int{400, 1000} {
+		in := hist(min20, 16, call(0, 1000, nil, many(0, n, 0, c13Attr{Lat: 1})...), call(0, 1000, nil, many(0, n, 1, c13Attr{Lat: 1})...))
+		in.Instant = true
+		out = append(out, in)
+	}
 	// contract broken by the pipeline: dropped / duplicated / foreign / other block
 	out = append(out, hist(min20, 2, call(0, 1000, nil, pp{0, 0, c13Attr{Mut: 1}}, pp{1, 0, c13Attr{Mut: 2}}, pp{2, 0, c13Attr{Mut: 3}}, pp{3, 0, c13Attr{Mut: 4}}, pp{4, 0, ok}),
 		call(0, 1000, nil, pp{0, 0, ok}, pp{1, 0, ok}, pp{2, 0, ok}, pp{3, 0, ok}, pp{3, 2, ok}, pp{4, 0, ok})))
@@ -618,5 +775,9 @@ func TestC13(t *testing.T) {
 	nbig := tierN(6, 60)
 	for i := 0; i < n; i++ {
 		run("gen", c13Gen(r, i < nbig, em))
+	}
+	ri := NewRng(seed() ^ 0x13c13)
+	for i, ni := 0, tierN(120, 2000); i < ni; i++ {
+		run("gen-instant", c13GenInstant(ri, em))
 	}
 }
